@@ -2340,7 +2340,15 @@ class WBEMConnection:  # pylint: disable=too-many-instance-attributes
             if isinstance(value, list):
                 return [_conv(v) for v in value]
             return _conv(value)
-        return cimvalue(value, cimtype)
+        try:
+            return cimvalue(value, cimtype)
+        except (TypeError, ValueError) as exc:
+            new_exc = CIMXMLParseError(
+                _format("Invalid return value or output parameter value "
+                        "{0!A} for CIM type {1!A}: {2}", value, cimtype, exc),
+                conn_id=self.conn_id)
+            new_exc.__cause__ = None
+            raise new_exc
 
     def _iexportcall(self, methodname, **params):
         """
